@@ -177,7 +177,45 @@ def native_renaming(run, n_models, only_styles=None):
                     fails += 1
                     run.findings.append(Finding("C13.py.native_renaming", "process_model.covariance", f"renaming changes covariance[{a.name},{b.name}]: {w1} vs {w2}", {"language": "python", "inputs": {"seed": run.seed + t}, "renaming": {k.name: v.name for k, v in ren.items()}}, True))
                     break
-    run.bounded.append({"what": "metamorphic native run: model and its consistently renamed twin (list containers, permuted layout) through the real filter's process_model, named outputs compared", "bound": f"{n_models} generic 3-state/1-calibration/2-control models", "failures": fails, "counted_as_proved": False})
+        # sensor side: Jacobian columns by state name, and the posterior of an update with the same named readings
+        try:
+            st1, st2 = scenarios.named_state(ekf, sc, pt), scenarios.named_state(ekf2, sc2, pt2)
+            for key, sm in sc.sensor_models.items():
+                rn = sorted(sm)
+                H1, H2 = ekf.sensor_jacobian(key, st1), ekf2.sensor_jacobian(key, st2)
+                bad = None
+                for ri in range(len(rn)):
+                    for a in sc.state:
+                        h1, h2 = H1[ri, idx1[a]], H2[ri, idx2[ren[a]]]
+                        if abs(h1 - h2) > 1e-9 * max(1, abs(h1)):
+                            bad = f"renaming changes d({rn[ri]})/d({a.name}) of sensor {key}: {h1} vs {h2} (as {ren[a].name})"
+                            break
+                    if bad:
+                        break
+                if not bad:
+                    vals = {r: 0.5 + 0.25 * qi for qi, r in enumerate(rn)}
+                    u1 = ekf.sensor_model(st1, ekf.Covariance(), sensor_key=key, sensor_reading=ekf.make_reading(key, **vals))
+                    u2 = ekf2.sensor_model(st2, ekf2.Covariance(), sensor_key=key, sensor_reading=ekf2.make_reading(key, **vals))
+                    for a in sc.state:
+                        v1, v2 = u1[0].data[idx1[a], 0], u2[0].data[idx2[ren[a]], 0]
+                        if abs(v1 - v2) > 1e-8 * max(1, abs(v1)):
+                            bad = f"renaming {a.name}->{ren[a].name} changes the updated value of that state (sensor {key}): {v1} vs {v2}"
+                            break
+                        for b in sc.state:
+                            w1, w2 = u1[1].data[idx1[a], idx1[b]], u2[1].data[idx2[ren[a]], idx2[ren[b]]]
+                            if abs(w1 - w2) > 1e-8 * max(1, abs(w1)):
+                                bad = f"renaming changes the updated covariance[{a.name},{b.name}] (sensor {key}): {w1} vs {w2}"
+                                break
+                        if bad:
+                            break
+                if bad:
+                    fails += 1
+                    run.findings.append(Finding("C13.py.native_renaming", "sensor_update", bad, {"language": "python", "inputs": {"seed": run.seed + t}, "renaming": {k.name: v.name for k, v in ren.items()}}, True))
+                    break
+        except Exception as e:
+            fails += 1
+            run.findings.append(Finding("C13.py.native_renaming", "sensor_update.raised", f"sensor side of the renamed twin raised {type(e).__name__}: {e}", {"language": "python", "inputs": {"seed": run.seed + t}, "renaming": {k.name: v.name for k, v in ren.items()}}, True))
+    run.bounded.append({"what": "metamorphic native run: model and its consistently renamed twin (list containers, permuted layout) through the real filter's process_model, sensor_jacobian and sensor_model (same named readings), named outputs compared", "bound": f"{n_models} generic 3-state/1-calibration/2-control models", "failures": fails, "counted_as_proved": False})
 
 
 def triage(run, rep):
